@@ -159,52 +159,80 @@ def judge(case, ctx, prefix='C10'):
     lo, hi = time_constants(A)
     ws = [0.0] + [float(x) for x in np.logspace(math.log10(lo) - 1.5, math.log10(hi) + 1.5, 6)]
     nodes = circdesc.nodes({'components': comps})
-    rows_c, rows_d, labels = [], [], []
-    for n in nodes:
-        rows_c.append(call(ssm.c_row_for_potential, n)); rows_d.append(call(ssm.d_row_for_potential, n)); labels.append(('potential', n, 'node'))
-    for c in comps:
-        rows_c.append(call(ssm.c_row_voltage, c['id'])); rows_d.append(call(ssm.d_row_voltage, c['id'])); labels.append(('voltage', c['id'], c['ctor']))
-        rows_c.append(call(ssm.c_row_current, c['id'])); rows_d.append(call(ssm.d_row_current, c['id'])); labels.append(('current', c['id'], c['ctor']))
-    for r in rows_c + rows_d:
-        if raised(r):
-            ctx.violation(f'{prefix}/row-accessor-raised/{r.key}', r.text, {})
-            return
-    Cm = np.vstack([np.asarray(r, dtype=float).reshape(1, -1) for r in rows_c])
-    Dm = np.vstack([np.asarray(r, dtype=float).reshape(1, -1) for r in rows_d])
-    nontrivial = False
-    for w in ws:
-        tf = call(dynamics.transfer, A, B, Cm, Dm, w)
-        if raised(tf):
-            ctx.count('set_aside_point_on_a_pole')
-            continue
-        H, kM = tf
-        for j, sid in enumerate(sources):
-            ref_net = dynamics.unit_response_network(cd, w, sid)
-            refd = netsolve.reference_from_ref(ref_net)
-            if refd is None:
-                ctx.count('set_aside_point_ill_posed')
+    k_build = dynamics.construction_kappa(cd)
+    ctx.maxstat('max_construction_kappa', k_build if np.isfinite(k_build) else 1e300)
+
+    def transfer_clause(m, srcs, pfx, counter):
+        """every output row of model m against the exact unit phasor response; None after a violation, else whether anything was non-zero"""
+        rows_c, rows_d, labels = [], [], []
+        for n in nodes:
+            rows_c.append(call(m.c_row_for_potential, n)); rows_d.append(call(m.d_row_for_potential, n)); labels.append(('potential', n, 'node'))
+        for c in comps:
+            rows_c.append(call(m.c_row_voltage, c['id'])); rows_d.append(call(m.d_row_voltage, c['id'])); labels.append(('voltage', c['id'], c['ctor']))
+            rows_c.append(call(m.c_row_current, c['id'])); rows_d.append(call(m.d_row_current, c['id'])); labels.append(('current', c['id'], c['ctor']))
+        for r in rows_c + rows_d:
+            if raised(r):
+                ctx.violation(f'{pfx}/row-accessor-raised/{r.key}', r.text, {})
+                return None
+        Cm = np.vstack([np.asarray(r, dtype=float).reshape(1, -1) for r in rows_c])
+        Dm = np.vstack([np.asarray(r, dtype=float).reshape(1, -1) for r in rows_d])
+        nontrivial = False
+        for w in ws:
+            tf = call(dynamics.transfer, m.A, m.B, Cm, Dm, w)
+            if raised(tf):
+                ctx.count('set_aside_point_on_a_pole')
                 continue
-            kappa = max(refd['kappa'], float(kM))
-            if not kappa <= netsolve.KAPPA_MAX:
-                ctx.count('set_aside_point_ill_conditioned')
-                continue
-            tol = floatmna.tolerance(kappa)
-            rep = refd['rep']
-            src_comp = next(c for c in comps if c['id'] == sid)
-            for r, (cls, ident, feat) in enumerate(labels):
-                exp = rep['phi'][ident] if cls == 'potential' else (rep['V'][ident] if cls == 'voltage' else rep['I'][ident])
-                s = refd['s_phi'] if cls != 'current' else refd['s_i']
-                got = complex(H[r, j])
-                ctx.count('transfer_values_compared')
-                err = abs(got - exp)
-                ctx.maxstat('max_transfer_error_over_scale', err / s if s else 0)
-                if abs(exp) > 0:
-                    nontrivial = True
-                if not err <= tol * s:
-                    ctx.violation(f'{prefix}/transfer-mismatch/{cls}/{feat}/{"dc" if w == 0 else "ac"}/{okey}',
-                                  f'H[{cls}({ident!r}) <- {sid!r}](j{w:.6g}) = {got!r}, exact phasor response {exp!r}',
-                                  {'w': w, 'source': sid, 'source_kind': src_comp['ctor'], 'sources_published': sources, 'order_class': oc, 'tol': tol * s})
-                    return
+            H, kM = tf
+            for j, sid in enumerate(srcs):
+                ref_net = dynamics.unit_response_network(cd, w, sid)
+                refd = netsolve.reference_from_ref(ref_net)
+                if refd is None:
+                    ctx.count('set_aside_point_ill_posed')
+                    continue
+                kappa = max(refd['kappa'], float(kM), k_build)
+                if not kappa <= netsolve.KAPPA_MAX:
+                    ctx.count('set_aside_point_ill_conditioned')
+                    continue
+                tol = floatmna.tolerance(kappa)
+                rep = refd['rep']
+                src_comp = next(c for c in comps if c['id'] == sid)
+                for r, (cls, ident, feat) in enumerate(labels):
+                    exp = rep['phi'][ident] if cls == 'potential' else (rep['V'][ident] if cls == 'voltage' else rep['I'][ident])
+                    s = refd['s_phi'] if cls != 'current' else refd['s_i']
+                    got = complex(H[r, j])
+                    ctx.count(counter)
+                    err = abs(got - exp)
+                    ctx.maxstat('max_transfer_error_over_scale', err / s if s else 0)
+                    if abs(exp) > 0:
+                        nontrivial = True
+                    if not err <= tol * s:
+                        ctx.violation(f'{pfx}/transfer-mismatch/{cls}/{feat}/{"dc" if w == 0 else "ac"}/{okey}',
+                                      f'H[{cls}({ident!r}) <- {sid!r}](j{w:.6g}) = {got!r}, exact phasor response {exp!r}',
+                                      {'w': w, 'source': sid, 'source_kind': src_comp['ctor'], 'sources_published': srcs, 'order_class': oc, 'tol': tol * s})
+                        return None
+        return nontrivial
+
+    nontrivial = transfer_clause(ssm, sources, prefix, 'transfer_values_compared')
+    if nontrivial is None:
+        return
+    # the same model built with user-supplied node / source numberings (mapper extension point): same transfer behaviour
+    from CircuitCalculator.Network.NodalAnalysis.state_space_model import nodal_state_space_model
+    from .. import mappers
+    cm = mappers.custom_numbering(ctx.rng.getrandbits(30))
+    which = ctx.rng.choice(['node', 'voltage-source', 'current-source', 'all'])
+    kw = {'node': {'node_index_mapper': cm['node_mapper']}, 'voltage-source': {'voltage_source_index_mapper': cm['voltage_source_mapper']},
+          'current-source': {'current_source_index_mapper': cm['current_source_mapper']},
+          'all': {'node_index_mapper': cm['node_mapper'], 'voltage_source_index_mapper': cm['voltage_source_mapper'], 'current_source_index_mapper': cm['current_source_mapper']}}[which]
+    ssm2 = call(nodal_state_space_model, net, c_values=cv, l_values=lv, **kw)
+    ctx.count('custom_numbering_models')
+    if raised(ssm2):
+        ctx.violation(f'{prefix}/custom-numbering/{which}/model-construction-raised/{ssm2.key}', f'state-space model with a permuted {which} numbering raised {ssm2.text}', {})
+    else:
+        src2 = call(lambda: list(ssm2.sources))
+        if raised(src2) or sorted(src2) != srcs_expected or ssm2.B.shape[1] != len(srcs_expected):
+            ctx.violation(f'{prefix}/custom-numbering/{which}/published-sources', f'published sources {src2!r}, circuit sources {srcs_expected!r}', {})
+        else:
+            transfer_clause(ssm2, src2, f'{prefix}/custom-numbering/{which}', 'custom_numbering_transfer_values_compared')
     # the circuit-level wrapper must stack exactly these rows
     from CircuitCalculator.Circuit.state_space_model import state_space_model
     ids = [c['id'] for c in comps]
